@@ -48,21 +48,6 @@ static void parse_path(const char* t, Path& p)
   free(dup);
 }
 
-static Variant scalar_of(const char* t)
-{
-  switch(t[0]) {
-  case 'n': return Variant();
-  case 'b': return Variant(t[1] == '1');
-  case 'd': { long long m = strtoll(t + 1, 0, 10); const char* u = strchr(t, '_'); int e = atoi(u + 1);
-              return Variant(ldexp((double)m, e)); }
-  case 'i': return Variant((int)strtol(t + 1, 0, 10));
-  case 'u': return Variant((uint)strtoul(t + 1, 0, 10));
-  case 'I': return Variant((int64)strtoll(t + 1, 0, 10));
-  case 'U': return Variant((uint64)strtoull(t + 1, 0, 10));
-  }
-  return Variant();
-}
-
 // the scalar assignment operators (operator=(bool) ... operator=(uint64)), not operator=(const Variant&)
 static void assign_scalar(Variant& d, const char* t)
 {
@@ -184,6 +169,21 @@ static bool self_containing(int i, const Path& p, int j, const Path& sp, bool in
   if(ns > nd || (!includeTarget && ns == nd)) return false;
   for(int k = 0; k < ns; ++k) if(d[k] != s[k]) return false;
   return true;
+}
+
+static Variant::Type type_of_kind(char kind)
+{
+  return kind == 'm' ? Variant::mapType : kind == 'l' ? Variant::listType : Variant::arrayType;
+}
+
+// `d = s.toList()` with s an ancestor of d two or more levels up, or the parent of a d that already is a list
+// (VariantSpec.self_containing, OAssignNodeFrom)
+static bool self_containing_node(int i, const Path& p, int j, const Path& sp, char kind)
+{
+  if(!self_containing(i, p, j, sp, false)) return false;
+  if(p.n >= sp.n + 2) return true;
+  const Variant* d = nav_const(vars[i], p);
+  return d && d->getType() == type_of_kind(kind);
 }
 
 // ---------------------------------------------------------------------------------------------
@@ -386,12 +386,13 @@ static bool varok(int i) { return i >= 0 && i < K; }
 
 static void op(long c, long, vh::Tok& t)
 {
-  // `assign!` / `cont!`: the same operation without the self-containment guard (only used by the
+  // `assign!` / `cont!` / `assignnode!`: the same operation without the self-containment guard (only used by the
   // known-finding witness: the code then stores into a payload a handle to that payload)
   char oname[32]; strncpy(oname, t.v[0], 31); oname[31] = 0;
   bool unguarded = false;
   { size_t L = strlen(oname); if(L && oname[L - 1] == '!') { unguarded = true; oname[L - 1] = 0; } }
   const char* o = oname;
+  if(!strcmp(o, "assign") && t.n >= 6) o = "assignnode";     // `assign i p j sp k` = `assignnode i p j sp k`
   const char* res = "done";
   Path p, sp;
   if(!strcmp(o, "swap") || !strcmp(o, "copynew")) {
@@ -404,6 +405,58 @@ static void op(long c, long, vh::Tok& t)
   }
   int i = atoi(t.v[1]);
   if(!varok(i)) { observe(c, "badvar"); return; }
+  // the converting constructors: destroy the variable, construct it from the value
+  if(!strcmp(o, "csets")) {
+    vars[i].~Variant();
+    switch(t.v[2][0]) {
+    case 'n': new (&vars[i]) Variant(); break;
+    case 'b': new (&vars[i]) Variant(t.v[2][1] == '1'); break;
+    case 'd': { long long m = strtoll(t.v[2] + 1, 0, 10); const char* u = strchr(t.v[2], '_'); int e = atoi(u + 1);
+                new (&vars[i]) Variant(ldexp((double)m, e)); break; }
+    case 'i': new (&vars[i]) Variant((int)strtol(t.v[2] + 1, 0, 10)); break;
+    case 'u': new (&vars[i]) Variant((uint)strtoul(t.v[2] + 1, 0, 10)); break;
+    case 'I': new (&vars[i]) Variant((int64)strtoll(t.v[2] + 1, 0, 10)); break;
+    case 'U': new (&vars[i]) Variant((uint64)strtoull(t.v[2] + 1, 0, 10)); break;
+    default: new (&vars[i]) Variant(); res = "?scalar";
+    }
+    observe(c, res);
+    return;
+  }
+  if(!strcmp(o, "csetstr")) {
+    String str = str_of_hex(t.v[2]);
+    vars[i].~Variant();
+    new (&vars[i]) Variant(str);
+    observe(c, res);
+    return;
+  }
+  if(!strcmp(o, "csetnode")) {
+    { // the temporaries die before the observation
+    char kind = t.v[2][0];
+    VMap tm; VList tl; VArray ta;
+    bool bad = false;
+    if(strcmp(t.v[3], "-")) {
+      char* dup = strdup(t.v[3]); char* save = 0;
+      for(char* q = strtok_r(dup, ",", &save); q; q = strtok_r(0, ",", &save)) {
+        char* colon = strchr(q, ':'); *colon = 0;
+        int j = atoi(colon + 1);
+        if(!varok(j)) { bad = true; break; }
+        if(kind == 'm') tm.append(str_of_hex(q), vars[j]);
+        else if(kind == 'l') tl.append(vars[j]);
+        else { Variant copy(vars[j]); ta.append(copy); }
+      }
+      free(dup);
+    }
+    if(bad) res = "badvar";
+    else {
+      vars[i].~Variant();
+      if(kind == 'm') new (&vars[i]) Variant(tm);
+      else if(kind == 'l') new (&vars[i]) Variant(tl);
+      else new (&vars[i]) Variant(ta);
+    }
+    }
+    observe(c, res);
+    return;
+  }
   parse_path(t.v[2], p);
   if(!strcmp(o, "sets")) {
     Variant* d = nav_mut(vars[i], p);
@@ -447,6 +500,41 @@ static void op(long c, long, vh::Tok& t)
       else {
         const Variant* s = nav_const(vars[j], sp);
         if(!s) res = "nosrc"; else *d = *s;
+      }
+    }
+  } else if(!strcmp(o, "assignstr")) {
+    // `d = s.toString()`: the argument is a reference INTO the payload of variable j (the non-const toString()
+    // is the only public way to a String reference into a Variant), possibly inside the assigned Variant
+    int j = atoi(t.v[3]);
+    parse_path(t.v[4], sp);
+    if(!varok(j)) res = "badvar";
+    else {
+      const Variant* s0 = nav_const(vars[j], sp);
+      if(!s0 || s0->getType() != Variant::stringType) res = "nosrc";
+      else {
+        Variant* s = nav_mut(vars[j], sp);          // resolves: every node on the way has the kind of its step
+        String& r = s->toString();
+        Variant* d = nav_mut(vars[i], p);           // leaves r alone: the blocks above r are exclusively owned now
+        if(!d) res = "nopath"; else *d = r;
+      }
+    }
+  } else if(!strcmp(o, "assignnode")) {
+    // `d = s.toMap()` / `.toList()` / `.toArray()` (const accessors): the argument is a reference into the payload of
+    // variable j, possibly inside the assigned Variant
+    int j = atoi(t.v[3]);
+    parse_path(t.v[4], sp);
+    char kind = t.v[5][0];
+    if(!varok(j)) res = "badvar";
+    else if(!unguarded && self_containing_node(i, p, j, sp, kind)) res = "excluded";
+    else {
+      Variant* d = nav_mut(vars[i], p);
+      if(!d) res = "nopath";
+      else {
+        const Variant* s = nav_const(vars[j], sp);
+        if(!s) res = "nosrc";
+        else if(kind == 'm') *d = s->toMap();
+        else if(kind == 'l') *d = s->toList();
+        else *d = s->toArray();
       }
     }
   } else if(!strcmp(o, "clear")) {
